@@ -177,6 +177,102 @@ func checkVecQueries(prop, where string, seg segment.Segment, want *spec.Obs, qu
 	return answers, v
 }
 
+// checkVecQueriesSharedHandle runs all queries of one field through ONE handle (opened filtering-
+// capable, with the exclusion bitmap of the field's first query), one after the other, and reads
+// each result list only after the following search has been issued: what a search returns may
+// depend neither on the searches that went through the handle before nor on those after.
+func checkVecQueriesSharedHandle(prop, where string, seg segment.Segment, want *spec.Obs, queries []vecQuery) *Violation {
+	var v *Violation
+	err := drive.Safe(func() error {
+		byField := map[string][]int{}
+		var fields []string
+		for qi, q := range queries {
+			if _, ok := byField[q.Field]; !ok {
+				fields = append(fields, q.Field)
+			}
+			byField[q.Field] = append(byField[q.Field], qi)
+		}
+		for _, f := range fields {
+			idx := byField[f]
+			vf := want.Vec[f]
+			if len(idx) < 2 || vf == nil || len(vf.Entries) == 0 {
+				continue
+			}
+			except := queries[idx[0]].Except
+			ex := dropSet(except)
+			vi, err := seg.(segment.VectorSegment).InterpretVectorIndex(f, true, drive.Bitmap(except))
+			if err != nil {
+				if vi != nil {
+					vi.Close()
+				}
+				return fmt.Errorf("InterpretVectorIndex(%q): %w", f, err)
+			}
+			type pending struct {
+				pl   segment.VecPostingsList
+				q    vecQuery
+				desc string
+			}
+			var prev *pending
+			settle := func(p *pending) error {
+				got, err := readVecList(p.pl)
+				if err != nil {
+					return fmt.Errorf("%s: %w", p.desc, err)
+				}
+				if len(p.q.Q) != vf.Dim {
+					if len(got) != 0 {
+						v = violation(prop, "vec/shared-handle-nonempty-for-wrong-dim", "%s: expected an empty result, got %v", p.desc, got)
+					}
+					return nil
+				}
+				elig := map[uint64]bool{}
+				for _, d := range p.q.Eligible {
+					elig[d] = true
+				}
+				live := func(d uint64) bool { return !ex[d] && (!p.q.Filter || elig[d]) }
+				if m := vecOracle(vf.Entries, vf.Metric, p.q.Q, p.q.K, live, isExact(vf), got); m != "" {
+					v = violation(prop, "vec/shared-handle-mismatch", "%s: %s", p.desc, m)
+				}
+				return nil
+			}
+			for n, qi := range idx {
+				q := queries[qi]
+				var eligible []uint64
+				for _, d := range q.Eligible {
+					if !ex[d] {
+						eligible = append(eligible, d) // callers pass eligible documents that are not excluded
+					}
+				}
+				q.Eligible = eligible
+				pl, err := startSearch(vi, q.Q, q.K, q.Filter, q.Eligible)
+				if err != nil {
+					vi.Close()
+					return fmt.Errorf("query %d on a shared handle: %w", qi, err)
+				}
+				cur := &pending{pl: pl, q: q, desc: fmt.Sprintf("%s: search %d of %d on one handle of field %q (query %d q=%v k=%d handle-except=%v filter=%v eligible=%v), read after the next search", where, n+1, len(idx), f, qi, q.Q, q.K, except.Docs, q.Filter, q.Eligible)}
+				if prev != nil {
+					if err := settle(prev); err != nil || v != nil {
+						vi.Close()
+						return err
+					}
+				}
+				prev = cur
+			}
+			if prev != nil {
+				if err := settle(prev); err != nil || v != nil {
+					vi.Close()
+					return err
+				}
+			}
+			vi.Close()
+		}
+		return nil
+	})
+	if err != nil {
+		return violation(prop, "vec/error", "%s: %v", where, err)
+	}
+	return v
+}
+
 func runVecCase(c vecCase) *Violation {
 	const prop = "C14"
 	want := spec.Expect(c.Batch)
@@ -228,6 +324,12 @@ func runVecCase(c vecCase) *Violation {
 	}
 	b, v := checkVecQueries(prop, "re-opened", opened, want, c.Queries)
 	if v != nil {
+		return v
+	}
+	if v := checkVecQueriesSharedHandle(prop, "in-memory", mem, want, c.Queries); v != nil {
+		return v
+	}
+	if v := checkVecQueriesSharedHandle(prop, "re-opened", opened, want, c.Queries); v != nil {
 		return v
 	}
 	for i := range a {
